@@ -21,7 +21,7 @@ import numpy as np
 from hypothesis import strategies as st
 
 from vp import pbt
-from vp.pbt import SubCheck
+from vp.pbt import SubCheck, represent
 from vp.ref import recurrence as rref
 from vp.ref import rqa
 
@@ -70,7 +70,8 @@ def arr(series):
         if not isinstance(r, (list, tuple)):
             r = [r]
         rows.append([np.nan if v is None else float(v) for v in r])
-    return np.array(rows, dtype=np.float64).reshape((len(rows), -1))
+    return represent(
+        np.array(rows, dtype=np.float64).reshape((len(rows), -1)))
 
 
 def pop_std(series):
